@@ -12,6 +12,8 @@ import ast
 
 from ..model import src, walk_no_nested
 from ..resolve import bind_args
+from .. import tq
+from ..sval import strip_ids
 from . import common
 
 EXPLANATION = ('static analysis: provenance of the lookup key and of the responder IkeSa arguments, ownership rules over '
@@ -198,35 +200,49 @@ def run(ctx):
 
     # ---------------------------------------------------------------- D4
     ml = ctx.func('ikesacontroller.IkeSaController.main_loop')
-    gm = esc.add_exception_edges(ml)
-    td = [(n, x) for n, x in common.nodes_calling(ctx, ml, gm, common.calls_named('to_dict'))]
+    ML = ctx.sval(ml)
+    table = ('attr', ('param', 'self'), 'ike_sas')
+    td = [c for c in ML.calls if c.name == 'to_dict' and strip_ids(c.recv or ('undef',)) == ('elem', table, 0)]
     ctx.floor('the status query (to_dict of the table entries)', len(td), 1, rule='D4')
-    for n, x in td:
-        recv = src(x.func.value)
-        okq = False
-        for h, l in gm.loops:
-            if isinstance(l, ast.For) and src(l.target) == recv and src(l.iter) == 'self.ike_sas' \
-                    and any(y is x for y in ast.walk(l)):
-                first = [m for lab, m in h.succ if lab == 'body']
-                okq = all(m.kind != 'cond' for m in first)
-        ctx.check(okq, 'D4', 'the status query reports every entry of the table itself', key=('D4', 'query-iterates'),
-                  site=ctx.site(ml, x))
+    sent = [c for c in ML.calls if c.name in ('sendall', 'send') and any(tq.contains(v, x.term) for x in td for v in c.args.values())]
+    okq = bool(sent)
+    for c in sent:
+        lists = [t for v in c.args.values() for t in tq.find(v, lambda x: x[0] == 'list' and len(x) == 2 and any(
+            isinstance(i, tuple) and i and i[0] == 'each' and tq.contains(i, td[0].term) for i in x[1]))]
+        okq = okq and len(lists) >= 1 and all(len(t[1]) == 1 and strip_ids(t[1][0])[2] == table and not t[1][0][3] and
+                                               t[1][0][4] in [x.term for x in td] for t in lists)
+    ctx.check(okq, 'D4', 'the status query reports every entry of the table itself (one report per entry, no filter)',
+              key=('D4', 'query-iterates'), site=ctx.site(ml, ml.node),
+              detail={'sent': [tq.text(v, 300) for c in sent for v in c.args.values()]})
     itd = ctx.func('ikesa.IkeSa.to_dict')
-    t = src(itd.node)
+    IT = ctx.sval(itd)
+    rep = IT.ret()
+    d = next((t for t in tq.find(rep, lambda x: x[0] == 'dict')), None) if rep[0] != 'dict' else rep
+    ents = {e[0][2]: e[1] for e in d[1] if len(e) == 2 and e[0][0] == 'const'} if d is not None else {}
     for key, expr in (('my_spi', 'self.my_spi.hex()'), ('peer_spi', 'self.peer_spi.hex()'),
-                      ('is_initiator', 'self.is_initiator'), ('state', 'self.state.name'),
-                      ('child_sas', 'for x in self.child_sas')):
-        ctx.check("'%s'" % key in t and expr in t, 'D4', 'IkeSa.to_dict reports %s' % key, key=('D4', 'field', key),
-                  site=ctx.site(itd, itd.node))
+                      ('is_initiator', 'self.is_initiator'), ('state', 'self.state.name')):
+        common.expect_term(ctx, 'D4', IT, ents.get(key), expr, 'IkeSa.to_dict reports %s' % key, ('D4', 'field', key), ctx.site(itd, itd.node))
+    ch = ents.get('child_sas')
+    okc = ch is not None and ch[0] == 'list' and len(ch[1]) == 1 and ch[1][0][0] == 'each' and not ch[1][0][3] and \
+        strip_ids(ch[1][0][2]) == ('attr', ('param', 'self'), 'child_sas') and tq.is_call(ch[1][0][4]) and \
+        strip_ids(ch[1][0][4][2]) == ('elem', ('attr', ('param', 'self'), 'child_sas'), 0) and any(
+            c.name == 'to_dict' and c.term == ch[1][0][4] for c in IT.calls)
+    ctx.check(okc, 'D4', 'IkeSa.to_dict reports child_sas (every CHILD_SA, each by its own to_dict)', key=('D4', 'field', 'child_sas'),
+              site=ctx.site(itd, itd.node), detail={'found': tq.text(ch, 300) if ch is not None else None})
     ctd = prog.functions.get('ikesa.ChildSa.to_dict')
     ctx.require(ctd is not None, 'anchor vanished: ChildSa.to_dict')
-    t = src(ctd.node)
+    CT = ctx.sval(ctd)
+    rep = CT.ret()
+    keys = {e[0][2] for e in rep[1] if len(e) == 2 and e[0][0] == 'const'} if rep[0] == 'dict' else set()
     for key in ('spis', 'protocol', 'mode', 'selectors'):
-        ctx.check("'%s'" % key in t, 'D4', 'ChildSa.to_dict reports %s' % key, key=('D4', 'child-field', key),
-                  site=ctx.site(ctd, ctd.node))
+        ctx.check(key in keys, 'D4', 'ChildSa.to_dict reports %s' % key, key=('D4', 'child-field', key), site=ctx.site(ctd, ctd.node))
     cstr = prog.functions.get('ikesa.ChildSa.__str__')
-    ctx.check(cstr is not None and 'inbound_spi.hex()' in src(cstr.node) and 'outbound_spi.hex()' in src(cstr.node),
-              'D4', 'the CHILD_SA dump shows both SPIs', key=('D4', 'child-spis'))
+    ok = cstr is not None
+    if ok:
+        CS = ctx.sval(cstr)
+        p0 = ('param', cstr.params[0]) if cstr.params else None
+        ok = p0 is not None and all(tq.contains(CS.ret(), CS.expr('%s.%s.hex()' % (p0[1], f))) for f in ('inbound_spi', 'outbound_spi'))
+    ctx.check(ok, 'D4', 'the CHILD_SA dump shows both SPIs', key=('D4', 'child-spis'))
 
 
 MANIFEST = {
